@@ -574,3 +574,74 @@ func init() {
 	_ = os.Stderr
 	_ = strings.Contains
 }
+
+// ---------------- parameter table ----------------
+type paramVal struct {
+	t types.Type
+	v value
+}
+
+func init() {
+	regSimple(rtPkg+".Native", func(fr *frame, args []value) value { return false })
+	regSimple(rtPkg+".Param", func(fr *frame, args []value) value {
+		k := mustString(args[0], "Param key")
+		x := args[1].(iface)
+		fr.i.params[k] = paramVal{x.t, x.v}
+		return nil
+	})
+	SS := "(github.com/pokt-network/pocket-core/types.Subspace)."
+	keyOf := func(v value) string {
+		bs := v.([]value)
+		raw := make([]byte, len(bs))
+		for k, b := range bs {
+			c, ok := b.(uint8)
+			if !ok {
+				unsupported("symbolic parameter key")
+			}
+			raw[k] = c
+		}
+		return string(raw)
+	}
+	get := func(fr *frame, args []value, must bool) value {
+		i := fr.i
+		k := keyOf(args[2])
+		i.stub("param store: Subspace.Get/Set read and write a harness-provided table (one value per key)")
+		pv, ok := i.params[k]
+		if !ok {
+			if must {
+				unsupported("parameter %q not provided by the harness", k)
+			}
+			return nil
+		}
+		p := pv.(paramVal)
+		dst := args[3].(iface)
+		pt, isPtr := dst.t.Underlying().(*types.Pointer)
+		if !isPtr {
+			unsupported("Subspace.Get into non-pointer %s", dst.t)
+		}
+		if !types.Identical(pt.Elem(), p.t) {
+			if !types.Identical(pt.Elem().Underlying(), p.t.Underlying()) {
+				unsupported("parameter %q: harness provided %s, code reads %s", k, p.t, pt.Elem())
+			}
+		}
+		store(pt.Elem(), dst.v.(*value), copyVal(pt.Elem(), p.v))
+		return nil
+	}
+	regSimple(SS+"Get", func(fr *frame, args []value) value { return get(fr, args, true) })
+	regSimple(SS+"GetIfExists", func(fr *frame, args []value) value { return get(fr, args, false) })
+	regSimple(SS+"Has", func(fr *frame, args []value) value {
+		_, ok := fr.i.params[keyOf(args[2])]
+		return tuple{ok, iface{}}
+	})
+	regSimple(SS+"Set", func(fr *frame, args []value) value {
+		x := args[3].(iface)
+		fr.i.params[keyOf(args[2])] = paramVal{x.t, copyVal(x.t, x.v)}
+		return nil
+	})
+}
+
+// copyVal deep-copies structs/arrays (value semantics); reference types are shared.
+func copyVal(t types.Type, v value) value {
+	cell := v
+	return load(t, &cell)
+}
